@@ -165,8 +165,12 @@ impl PyScript {
 
     fn read(reader: &mut dyn Read) -> Result<Self, ChainGangError> {
         let script_len = var_int::read(reader)?;
-        let mut script: Vec<u8> = vec![0; script_len as usize];
-        reader.read_exact(&mut script)?;
+        // the length is untrusted: read at most that many bytes instead of allocating it up front
+        let mut script: Vec<u8> = Vec::new();
+        reader.take(script_len).read_to_end(&mut script)?;
+        if script.len() as u64 != script_len {
+            return Err(std::io::Error::from(std::io::ErrorKind::UnexpectedEof).into());
+        }
         Ok(PyScript { cmds: script })
     }
 }
@@ -240,7 +244,7 @@ impl PyScript {
     }
 
     /// append integers
-    fn append_integer(&mut self, int_val: i64) {
+    fn append_integer(&mut self, int_val: i64) -> PyResult<()> {
         match int_val {
             -1 => self.cmds.push(op_codes::OP_1NEGATE),
             0 => self.cmds.push(op_codes::OP_0),
@@ -250,12 +254,13 @@ impl PyScript {
                 self.cmds.extend(&retval);
             }
             _ => {
-                let mut retval = encode_num(int_val).unwrap();
-                let len: u8 = retval.len().try_into().unwrap();
+                let mut retval = encode_num(int_val)?;
+                let len: u8 = retval.len().try_into()?;
                 retval.insert(0, len);
                 self.cmds.extend(&retval);
             }
         }
+        Ok(())
     }
 
     #[allow(clippy::inherent_to_string_shadow_display)]
@@ -363,7 +368,7 @@ impl PyScript {
             }
             _ => {
                 let mut retval = encode_bigint(big_int.clone());
-                let len: u8 = retval.len().try_into().unwrap();
+                let len: u8 = retval.len().try_into()?;
                 retval.insert(0, len);
                 self.cmds.extend(&retval);
             }
